@@ -21,6 +21,7 @@ import (
 	"fmt"
 	"io"
 	"io/ioutil"
+	"mime"
 	"net/http"
 	"net/url"
 	"sync"
@@ -147,7 +148,13 @@ func NewHTTPRequestFromStdReq(req *http.Request, params ...Param) (ret *HTTPRequ
 		ret.Params.Set(p.Key, p.Value)
 	}
 
-	switch req.Header.Get(HeaderContentType) {
+	// the header may carry parameters ("application/json; charset=utf-8")
+	mediaType, _, err := mime.ParseMediaType(req.Header.Get(HeaderContentType))
+	if err != nil {
+		// a missing or malformed header: there is no body this package knows how to map
+		mediaType = ""
+	}
+	switch mediaType {
 	case "application/json":
 		{
 			body, err := ioutil.ReadAll(req.Body)
